@@ -26,7 +26,19 @@ def _vals(ctx, spec):
     import numpoly
 
     arr = S.build_operand(dict(spec, kind="array"), ctx.values())
-    return arr, numpoly.polynomial(arr)
+    rep = spec.get("repr", 0)
+    if rep == 0:
+        return arr, numpoly.polynomial(arr)
+    # the same constant in a less tidy representation: extra indeterminates, retained all-zero terms, the constant term not
+    # stored first (what retain_coefficients=True, dict construction and raw allocation produce)
+    a = numpy.asarray(arr)
+    zero = a * 0
+    if rep == 1:
+        p = numpoly.ndpoly(exponents=[[1, 0], [0, 0], [0, 2]], shape=a.shape, names=("q0", "q1"), dtype=a.dtype if a.dtype != object else object)
+        for key, val in zip(p.keys, (zero, a, zero)):
+            p.values[key] = val
+        return arr, p
+    return arr, numpoly.ndpoly.from_attributes([[2], [0]], [zero, a], names=("q0",), retain_coefficients=True)
 
 
 def _ax(a):
@@ -163,6 +175,12 @@ def body(ctx: H.BaseCtx):
             wa = bool(numpy.all(want))
             if bool(numpoly.allclose(p, q, **kw)) != wa:
                 ctx.fail("value", "allclose%s is %s, numpy gives %s" % (kw, not wa, wa))
+        elif fn == "power":
+            # exponents are literals 0..3 (the second operand, itself a constant polynomial in any representation)
+            want = numpy.asarray(x, dtype=object) ** numpy.asarray(y, dtype=object) if ctx.symbolic else x ** y
+            _cmp_arrays(ctx, numpoly.power(p, q), want, "power(constant, constant)", want_poly=True)
+            _cmp_arrays(ctx, numpy.power(p, q), want, "numpy.power(constant, constant)", want_poly=True)
+            _cmp_arrays(ctx, p ** q, want, "constant ** constant", want_poly=True)
         elif fn == "diff":
             _cmp_arrays(ctx, numpoly.diff(p, n=par.get("n", 1), axis=par.get("axis", -1)), numpy.diff(x, n=par.get("n", 1), axis=par.get("axis", -1)), "diff", want_poly=True)
             _cmp_arrays(ctx, numpoly.ediff1d(p), numpy.ediff1d(x), "ediff1d", want_poly=True)
@@ -200,7 +218,8 @@ def gen_cases(tier: str, seed: int) -> List[Dict]:
                 used += 1
             else:
                 slots.append(rng.choice([0, 1, -1, 2, -3, 5]))
-        return {"kind": "array", "shape": list(shape), "slots": slots}
+        # representation of the constant polynomial built from the array (see _vals): tidy, raw with zero terms around, retained
+        return {"kind": "array", "shape": list(shape), "slots": slots, "repr": rng.choice([0, 0, 1, 2])}
 
     def add(fn, operands, par=None):
         nonlocal n
@@ -228,9 +247,12 @@ def gen_cases(tier: str, seed: int) -> List[Dict]:
         add("max_method", [arr("a", shape, A)], {"axis": rng.choice(axes)})
         add("min_method", [arr("a", shape, A)], {"axis": rng.choice(axes)})
         add("compare", [arr("a", shape, 2), arr("b", shape if rng.random() < 0.6 else (shape[-1],), 2)])
-        add("intdiv", [arr("a", shape, 2, ties=False), arr("b", shape if rng.random() < 0.5 else (), 1, ties=False)])
-        add("truediv", [arr("a", shape, 2, ties=False), arr("b", (), 1, ties=False)])
+        nz = lambda sp: dict(sp, slots=[(2 if s == 0 else s) for s in sp["slots"]])  # no literal zero among the divisor's entries
+        add("intdiv", [arr("a", shape, 2, ties=False), nz(arr("b", shape if rng.random() < 0.5 else (), 1, ties=False))])
+        add("truediv", [arr("a", shape, 2, ties=False), nz(arr("b", (), 1, ties=False))])
         add("nonconst-divisor", [arr("a", shape, 1), arr("b", (), 1)])
+        eb = {"kind": "array", "shape": list(shape), "slots": [rng.choice([0, 1, 2, 3]) for _ in range(S.size_of(shape))], "repr": rng.choice([0, 1, 2])}
+        add("power", [arr("a", shape, 2, ties=False), eb])
         add("isclose", [arr("a", shape, 2, ties=False), arr("b", shape, 2, ties=False)], {"kw": rng.choice([{}, {"rtol": 0.25, "atol": 0}, {"rtol": 0, "atol": 2}])})
         for ax in range(nd):
             add("diff", [arr("a", shape, A)], {"axis": ax, "n": rng.choice([1, 2])})
